@@ -39,14 +39,26 @@ pub mod etag {
         //@end
     }
 
+    /// A well-formed entity-tag on its own: exactly one list element.
+    pub open spec fn single_tag(t: Seq<u8>) -> bool { list_step(t) == Step::Item(t, Seq::<u8>::empty()) && !is_star(t) }
+    pub proof fn lemma_single_tag_scan(t: Seq<u8>)
+        requires single_tag(t)
+        ensures scan(t, t, true) == (true, false), !is_weak(t) ==> scan(t, t, false) == (true, false)
+    {
+        lemma_step_shrinks(t);
+        assert(scan(Seq::<u8>::empty(), t, true) == (false, false));
+        assert(scan(Seq::<u8>::empty(), t, false) == (false, false));
+    }
     pub open spec fn opt_bytes(v: Option<HeaderValue>) -> Option<Seq<u8>> { match v { Some(h) => Some(h.bytes@), None => None } }
     pub open spec fn hdr_bytes(h: &HeaderMap, k: HeaderName) -> Option<Seq<u8>> { if h.m@.dom().contains(k) { Some(h.m@[k].bytes@) } else { None } }
 
     //@fn src/etag.rs :: fn none_match props=C04,C14 implicit=C13 rules=R10,R22,STD
     #[verifier::loop_isolation(false)]
     pub fn none_match(etag: &Option<HeaderValue>, req_hdrs: &HeaderMap) -> (r: Option<bool>)
-        ensures /*@C04,C14 #none_match_is_weak_list_comparison*/ r == none_match_s(opt_bytes(*etag), hdr_bytes(req_hdrs, HeaderName::IF_NONE_MATCH)),
+        ensures /*@C04 #none_match_is_weak_list_comparison*/ r == none_match_s(opt_bytes(*etag), hdr_bytes(req_hdrs, HeaderName::IF_NONE_MATCH)),
+            /*@C14 #echoed_etag_gives_not_modified*/ (*etag matches Some(e) && single_tag(e.bytes@) && hdr_bytes(req_hdrs, HeaderName::IF_NONE_MATCH) == Some(e.bytes@)) ==> r == Some(false),
     //@body
+    //@ at_start: proof { if let Some(e) = etag { if single_tag(e.bytes@) { lemma_single_tag_scan(e.bytes@); } } }
     //@ loop 1: invariant /*@C04 #none_match_scan_invariant*/ !items.corrupt && scan(m@, some_etag.bytes@, true) == ((!none_match || scan(items.remaining@, some_etag.bytes@, true).0), scan(items.remaining@, some_etag.bytes@, true).1), decreases items.remaining@.len(),
     //@ after "loop {": proof { lemma_step_shrinks(items.remaining@); }
     //@end
@@ -54,8 +66,10 @@ pub mod etag {
     //@fn src/etag.rs :: fn any_match props=C04,C14 implicit=C13 rules=R10,R22,STD
     #[verifier::loop_isolation(false)]
     pub fn any_match(etag: &Option<HeaderValue>, req_hdrs: &HeaderMap) -> (r: Result<bool, &'static str>)
-        ensures /*@C04,C14 #any_match_is_strong_list_comparison*/ (match r { Ok(b) => Ok::<bool, ()>(b), Err(_) => Err::<bool, ()>(()) }) == any_match_s(opt_bytes(*etag), hdr_bytes(req_hdrs, HeaderName::IF_MATCH)),
+        ensures /*@C04 #any_match_is_strong_list_comparison*/ (match r { Ok(b) => Ok::<bool, ()>(b), Err(_) => Err::<bool, ()>(()) }) == any_match_s(opt_bytes(*etag), hdr_bytes(req_hdrs, HeaderName::IF_MATCH)),
+            /*@C14 #echoed_strong_etag_passes_if_match*/ (*etag matches Some(e) && single_tag(e.bytes@) && !is_weak(e.bytes@) && hdr_bytes(req_hdrs, HeaderName::IF_MATCH) == Some(e.bytes@)) ==> r == Ok::<bool, &'static str>(true),
     //@body
+    //@ at_start: proof { if let Some(e) = etag { if single_tag(e.bytes@) { lemma_single_tag_scan(e.bytes@); } } }
     //@ loop 1: invariant /*@C04 #any_match_scan_invariant*/ !items.corrupt && scan(m@, some_etag.bytes@, false) == ((any_match || scan(items.remaining@, some_etag.bytes@, false).0), scan(items.remaining@, some_etag.bytes@, false).1), decreases items.remaining@.len(),
     //@ after "loop {": proof { lemma_step_shrinks(items.remaining@); }
     //@end
@@ -107,10 +121,25 @@ fn truncate_to_second(t: SystemTime) -> (r: SystemTime)
 fn parse_modified_hdrs(etag: &Option<HeaderValue>, req_hdrs: &HeaderMap, last_modified: Option<SystemTime>) -> (res: Result<(bool, bool), &'static str>)
     requires last_modified matches Some(m) ==> m.nanos < 1_000_000_000,
     ensures
-        /*@C04,C14 #precondition_failed_per_rfc7232*/ well_formed(*etag, req_hdrs, last_modified) ==> (res matches Ok(p) && p.0 == precondition_failed_s(*etag, req_hdrs, last_modified)),
-        /*@C04,C14 #not_modified_per_rfc7232*/ well_formed(*etag, req_hdrs, last_modified) ==> (res matches Ok(p) && p.1 == not_modified_s(*etag, req_hdrs, last_modified)),
+        /*@C04 #precondition_failed_per_rfc7232*/ well_formed(*etag, req_hdrs, last_modified) ==> (res matches Ok(p) && p.0 == precondition_failed_s(*etag, req_hdrs, last_modified)),
+        /*@C04 #not_modified_per_rfc7232*/ well_formed(*etag, req_hdrs, last_modified) ==> (res matches Ok(p) && p.1 == not_modified_s(*etag, req_hdrs, last_modified)),
+        /*@C14 #echoed_last_modified_in_if_unmodified_since*/ (well_formed(*etag, req_hdrs, last_modified) && !req_hdrs.m@.dom().contains(HeaderName::IF_MATCH)
+            && (last_modified matches Some(m) && hdr_date(req_hdrs, HeaderName::IF_UNMODIFIED_SINCE) matches Some(Some(d)) && d.secs == m.secs)) ==> (res matches Ok(p) && !p.0),
+        /*@C14 #echoed_last_modified_in_if_modified_since*/ (well_formed(*etag, req_hdrs, last_modified) && !req_hdrs.m@.dom().contains(HeaderName::IF_NONE_MATCH)
+            && (last_modified matches Some(m) && hdr_date(req_hdrs, HeaderName::IF_MODIFIED_SINCE) matches Some(Some(d)) && d.secs == m.secs)) ==> (res matches Ok(p) && p.1),
 //@body
 //@end
+
+//@lemma props=C14 lemma_echo_last_modified
+/// Round trip of the served Last-Modified (C14): `d` is what the client echoes, i.e. the served value
+/// fmt_http_date(min(m, now)) parsed back (assumed: httpdate renders and parses whole seconds faithfully).
+proof fn lemma_echo_last_modified(m: SystemTime, now1: SystemTime, d: SystemTime)
+    requires d.secs == st_min_s(m, now1).secs, d.nanos == 0,
+    ensures
+        /*@C14 #echo_matches_unless_future_dated*/ st_le(m, now1) ==> d.secs == m.secs,
+        /*@C14 #echo_matches_even_if_future_dated*/ d.secs == m.secs,
+{}
+//@endlemma
 
 //@lits
 //@canary_false
